@@ -9,6 +9,19 @@ def gen(rnd, tier):
     for _ in range(n):
         c = R.gen_history(rnd, rnd.choice([3, 6, 10, 18]), allow_alt=rnd.random() < 0.2, end_stop=True)
         cases.append(c)
+    # an alt-screen session in the middle: what the main screen still shows afterwards is the frame painted BEFORE it;
+    # lines that changed during the session and then stay must be repainted on the way out
+    for w, h in ((10, 4), (6, 3), (12, 6)):
+        for flush_after_exit in (True, False):
+            v0 = [[105, 110, 108], [99, 48]]          # "inl" / "c0"
+            v1 = [[97, 108, 116], [99, 49]]           # "alt" / "c1"   (line 0 changes while in the alt screen)
+            v2 = [[97, 108, 116], [99, 50]]           # "alt" / "c2"   (line 0 stays, line 1 changes)
+            ops = [{"op": "resize", "w": w, "h": h}, {"op": "write", "s": R.join_view(v0)}, {"op": "flush"}, {"op": "enteralt"},
+                   {"op": "write", "s": R.join_view(v1)}, {"op": "flush"}, {"op": "exitalt"}]
+            if flush_after_exit:
+                ops += [{"op": "write", "s": R.join_view(v1)}, {"op": "flush"}]
+            ops += [{"op": "write", "s": R.join_view(v2)}, {"op": "stop"}]
+            cases.append({"w0": w, "h0": h, "history": [[46] * w], "used": 1, "ops": ops})
     # quitting immediately after the last update, any number of coalesced intermediate views
     for k in (0, 1, 2, 5):
         for w, h in ((10, 4), (3, 2), (1, 1), (6, 6)):
